@@ -268,7 +268,9 @@ static IAUTH_RULE_FUNC(iauth_class_rule_check)
 
     if (rule->trust_username && (req->auth_username[0] == '~')) {
         int ofs = (req->cli_username[0] == '~');
-        iauth_trust_username(req, req->cli_username + ofs);
+        /* A hurried client may not have told us its user name yet. */
+        if (req->cli_username[ofs] != '\0')
+            iauth_trust_username(req, req->cli_username + ofs);
     }
 
     strlcpy(req->class, rule->class ? rule->class : rule->name, CLASSLEN);
